@@ -293,6 +293,14 @@ def calls_in(fn, e, follow_refs=False):
             yield n
 
 
+def arg_is_pointer(call, i):
+    """does argument i of call node have pointer/array type (so that the
+    callee could store through it)?  True when the extractor gave no flags."""
+    if len(call) > 5 and isinstance(call[5], str) and i < len(call[5]):
+        return call[5][i] == "1"
+    return True
+
+
 def strip_casts(e):
     while isinstance(e, list) and e and e[0] == "k":
         e = e[2]
